@@ -523,6 +523,13 @@ def check_C17(tier, seed):
                                 'ENUMNUM %d' % rnd.choice([0, 42, 666, 1000, 1, 41, 43, 999, 1001, 4294967295])])
                 lines.extend([l] * rnd.choice([1, 4, 8]))
                 st.add('ENUMLOOKUP', l)
+            # method lookups by name on two service descriptors that declare the same names in opposite orders
+            for _ in range(per_env):
+                nm = rnd.choice(['Alpha', 'Bravo', 'Charlie', 'Delta', 'Echo', 'Foxtrot', 'Golf', 'Hotel', 'Alph', 'Hotels', 'India', 'alpha'])
+                for w in rnd.sample([0, 1], 2):
+                    l = 'METHODNAME %d %s' % (w, nm)
+                    lines.extend([l] * rnd.choice([1, 4]))
+                    st.add('METHODLOOKUP', l)
             rnd.shuffle(lines)
             text = env.text() + '\n'.join(lines) + '\n'
             rc0, seq_out, seq_err = run_driver(ctx.impl, text, 'c17seq')
@@ -532,9 +539,9 @@ def check_C17(tier, seed):
             # the driver compares every shared object (descriptors, default values, the default allocator) with a snapshot
             # taken before the first call: the library must not have written to any of them
             shared = [w for w, o in (('sequential run', seq_out), ('threaded run', mt_out)) if 'SHARED-STATE-CHANGED' in o]
-            outside = [w for w, o in (('sequential run', seq_out), ('threaded run', mt_out)) if any(x.startswith('E OUTSIDE') for x in o)]
+            outside = [w for w, o in (('sequential run', seq_out), ('threaded run', mt_out)) if any(x.startswith('E OUTSIDE') or x.startswith('V OUTSIDE') for x in o)]
             if outside:
-                bad = bad + ['an enum lookup returned a pointer that is not an entry of the shared descriptor (E OUTSIDE) in the ' + ' and the '.join(outside)]
+                bad = bad + ['an enum / method lookup returned a pointer that is not an entry of the shared descriptor (E OUTSIDE / V OUTSIDE) in the ' + ' and the '.join(outside)]
             if shared:
                 bad = bad + ['SHARED-STATE-CHANGED (a descriptor, a default value or the default allocator was written to) in the ' + ' and the '.join(shared)]
             tally_shared[0] += 1
